@@ -134,22 +134,25 @@ class FnSpec:
         self.arm_wraps = []     # (id, match_ordinal, arm_ordinal, text)
         self.tail_wraps = []    # (id, occ, opener_anchor, text)
         self.extra_sig = []     # raw text appended in clause position (e.g. 'no_unwind')
+        self.suffix = []        # (id, text) inserted before the closing brace of the fn body
 
     def loop(self, n):
         return self.loops.setdefault(n, dict(invariant=[], invariant_except_break=[], ensures=[],
-                                              decreases=None, prefix=[]))
+                                              decreases=None, prefix=[], for_continue=False, body_invariant=[],
+                                              body_ensures=[], iter_name=None, body_prefix=[]))
 
     def clause_ids(self):
         ids = [c[0] for c in self.requires + self.ensures]
         if self.decreases:
             ids.append(self.decreases[0])
         for l in self.loops.values():
-            ids += [c[0] for c in l['invariant'] + l['invariant_except_break'] + l['ensures']]
+            ids += [c[0] for c in l['invariant'] + l['invariant_except_break'] + l['ensures'] + l['body_invariant'] + l['body_ensures']]
             if l['decreases']:
                 ids.append(l['decreases'][0])
         ids += [h[0] for h in self.hints]
         ids += [w[0] for w in self.wraps]
         ids += [w[0] for w in self.arm_wraps]
+        ids += [x[0] for x in self.suffix]
         ids += [w[0] for w in self.tail_wraps]
         for _, _, cl in self.closures:
             ids += [c[0] for c in cl]
@@ -383,6 +386,8 @@ def splice_fn(text, spec, lo=0, hi=None):
     # prefix
     for p in spec.prefix:
         add(bo + 1, '\n' + _ind(p, indent + '    '))
+    for cid, t in spec.suffix:
+        add(end - 1, mark(_ind(t, indent + '    '), cid) + '\n' + indent)
     # loops
     loops = find_loops(masked, bo, end)
     if spec.nloops is not None and len(loops) != spec.nloops:
@@ -404,7 +409,45 @@ def splice_fn(text, spec, lo=0, hi=None):
         if cl:
             add(lb, '\n' + '\n'.join(cl) + '\n' + lind, order=1)
         for p in l['prefix']:
-            add(lb + 1, '\n' + _ind(p, lind + '    '))
+            add(lb + 1, '\n' + _ind(p, lind + '    '), order=0)
+        if l['iter_name']:
+            # T4: name the ghost iterator handle of a `for` loop:  for x in e  ->  for x in <name>: e
+            mm = re.compile(r'\bin\b').search(masked, kw, lb)
+            if not mm:
+                raise LostAnchor('fn %s: loop %d is not a for loop' % (spec.name, n))
+            add(mm.end(), ' %s:' % l['iter_name'])
+        if l['for_continue']:
+            # T13': `continue` inside a `for` is unsupported by Verus.  The body B becomes
+            #   loop <clauses> decreases 0int { B[continue -> break]; break; }
+            # i.e. a block that is left early exactly where B continued (same control flow, no back edge).
+            close = match_close(masked, lb)
+            inner = find_loops(masked, lb + 1, close)
+            skip = [(a, match_close(masked, b)) for a, b in inner]
+            nrep = 0
+            for cm in re.finditer(r"(?<![\w'])continue\b", masked[lb:close]):
+                pos_c = lb + cm.start()
+                if any(a <= pos_c <= b for a, b in skip):
+                    continue
+                ins.append((pos_c, -1, ('DEL', pos_c + len('continue'))))
+                add(pos_c, 'break /*vx:T13 was continue*/')
+                nrep += 1
+            if nrep == 0:
+                raise LostAnchor('fn %s: loop %d has no continue to rewrite (T13)' % (spec.name, n))
+            cl2 = [lind + '    loop /*vx:T13 one-iteration block*/']
+            if l['body_invariant']:
+                cl2.append(lind + '        invariant_except_break')
+                for cid, t in l['body_invariant']:
+                    cl2.append(mark(_ind(t, lind + '            ') + ',', cid))
+            if l['body_ensures']:
+                cl2.append(lind + '        ensures')
+                for cid, t in l['body_ensures']:
+                    cl2.append(mark(_ind(t, lind + '            ') + ',', cid))
+            cl2.append(lind + '        decreases 0int')
+            cl2.append(lind + '    {')
+            for bp in l['body_prefix']:
+                cl2.append(_ind(bp, lind + '        '))
+            add(lb + 1, '\n' + '\n'.join(cl2), order=2)
+            add(close, '    break; /*vx:T13*/\n' + lind + '    }\n' + lind)
     # hints
     for cid, where, occ, anchor, t in spec.hints:
         pos, pend = _find_anchor(text, bo, end, anchor, occ, spec.name, True)
